@@ -51,6 +51,7 @@ def build(tier, rnd):
     out += paren_setop_cases(15 if tier == "quick" else 100, common.env.seed() * 37 + 5)
     out += recursive_cte_cases(6 if tier == "quick" else 40, common.env.seed() * 41 + 5)
     out += update_shape_cases(12 if tier == "quick" else 80, common.env.seed() * 43 + 5)
+    out += self_read_cases(20 if tier == "quick" else 150, common.env.seed() * 61 + 3)
     out += dialect_name_cases(10 if tier == "quick" else 60, common.env.seed() * 47 + 1)
     # statement kinds that only some dialects accept are always shown to dialects that do
     g2 = sqlgen.Gen(random.Random(99))
@@ -121,6 +122,41 @@ def recursive_cte_cases(n, seed):
         q = With([(nm, SetOp("union all", [anchor, rec]))], body)
         kind = rnd.choice(["insert", "ctas", "bare", "create_view"])
         out.append((("recursive_cte", i), Stmt(kind, Base(f"tb_rw{i}", rnd.choice([None, "sb"])) if kind != "bare" else None, q), ["tsql", "snowflake", rnd.choice(["oracle", "db2", "sqlite"])]))
+    return out
+
+
+def self_read_cases(n, seed):
+    """the statement reads its own target inside a nested query (IN sub-query, CTE body, derived table, scalar sub-query of an UPDATE): the table is
+    both a source and the target"""
+    from vlib.sqlgen import Base, CteRef, Derived, E, Group, Item, P, Select, Stmt, With, col
+    rnd = random.Random(seed)
+    out = []
+    for i in range(n):
+        T = Base(f"tb_sr{i}", rnd.choice([None, "sa"]))
+        again = lambda al=None: Base(T.name, T.schema, al)  # noqa: E731
+        S = Base(f"tb_ss{i}", rnd.choice([None, "sb"]), f"s{i}")
+        inner = Select([Item(col("k_1"))], [Group(again())])
+        k = i % 6
+        ds = ["ansi", rnd.choice(["postgres", "snowflake", "sparksql", "bigquery", "mysql", "tsql"])]
+        if k == 0:
+            st = Stmt("insert", T, Select([Item(col("c_1", S.key()))], [Group(S)], where=P(rnd.choice(["in", "exists"]), colref=col("k_1", S.key()), query=inner)))
+        elif k == 1:
+            w = f"wq_s{i}"
+            st = Stmt(rnd.choice(["insert", "ctas"]), T, With([(w, inner)], Select([Item(col("k_1", w))], [Group(CteRef(w), [("inner", S, "on")])])))
+        elif k == 2:
+            st = Stmt(rnd.choice(["insert", "ctas", "create_view"]), T, Select([Item(col("k_1", "dq"))], [Group(Derived(inner, "dq"), [("inner", S, "on")])]))
+        elif k == 3:
+            sub = Select([Item(E("func", col("c_1"), fname="max"), "m")], [Group(again())])
+            st = Stmt("update", T, None, None, {"set": [("c_1", E("scalar", query=sub))], "from": [], "where": None})
+            ds = ["ansi", "postgres"]
+        elif k == 4:
+            st = Stmt("update", T, None, None, {"set": [("c_1", col("c_2", S.key()))], "from": [Group(S)], "where": P("in", colref=col("k_1", S.key()), query=Select([Item(col("k_1", "x"))], [Group(again("x"))]))})
+            ds = ["ansi", "postgres"]
+        else:
+            deep = Select([Item(col("k_1", "d2"))], [Group(Derived(Select([Item(col("k_1"))], [Group(S)], where=P("in", colref=col("k_1"), query=inner)), "d2"))])
+            st = Stmt("merge", T, None, None, {"source": Derived(deep, "m"), "update": [("c_1", "k_1")], "insert": []})
+            ds = ["ansi", "snowflake"]
+        out.append((("self_read", i), st, ds))
     return out
 
 
